@@ -215,7 +215,7 @@ class C20(PropBase):
                 det = ["recovery run (%s) after victim (%s, chunk=%s) was killed at op %d/%d: %s" % (
                     " ".join(exec_args(rec)), " ".join(exec_args(victim)), victim.get("chunk"), k, K, where),
                     "edit between: %s" % (scn["edit"]["desc"] if scn.get("edit") else "none")] + core.fmt_diff(oa, ob, "after-kill", "fresh")
-                if kind == K9_KIND:
+                if kind == K9_KIND and rec.get("exec", "j1") == "j1":   # K9 needs the single-job recovery run (in-memory + build-dir analysis)
                     sig = K9_KIND + " after a killed run"
                 elif kind == "missing-unmatchedSuppression" and closed > 0:
                     # one shape, wherever the kill lands: see known_findings.json
